@@ -54,6 +54,9 @@ pub struct Ledger {
     pub created: u64,
     pub cloned: u64,
     pub drops: u64,
+    /// instances that were live when the monitored region began (`ledger_mark`): tracked
+    /// values owned by script constants, created while the package was compiled
+    pub baseline: std::collections::HashSet<u64>,
 }
 
 static LEDGER: Mutex<Option<Ledger>> = Mutex::new(None);
@@ -83,6 +86,24 @@ pub fn ledger_reset() {
     B_BAD.store(0, Ordering::SeqCst);
 }
 
+/// Begin a monitored region *without* forgetting what is live: the instances that are live
+/// now form the baseline of the region. `ledger_report` then lists as live only what the
+/// region added, and raises an alarm for a baseline instance the region released.
+pub fn ledger_mark() {
+    with_ledger(|l| {
+        l.baseline = l.live.keys().copied().collect();
+        l.alarms.clear();
+        l.created = 0;
+        l.cloned = 0;
+        l.drops = 0;
+    });
+    Z_LIVE.store(0, Ordering::SeqCst);
+    Z_CLONES.store(0, Ordering::SeqCst);
+    Z_DROPS.store(0, Ordering::SeqCst);
+    B_LIVE.store(0, Ordering::SeqCst);
+    B_BAD.store(0, Ordering::SeqCst);
+}
+
 #[derive(Clone, Debug, Default)]
 pub struct LedgerReport {
     pub alarms: Vec<Alarm>,
@@ -99,10 +120,16 @@ pub struct LedgerReport {
 
 pub fn ledger_report() -> LedgerReport {
     with_ledger(|l| {
-        let mut live: Vec<(u64, i64)> = l.live.iter().map(|(a, b)| (*a, *b)).collect();
+        let mut live: Vec<(u64, i64)> = l.live.iter().filter(|(a, _)| !l.baseline.contains(a)).map(|(a, b)| (*a, *b)).collect();
         live.sort();
+        let mut alarms = l.alarms.clone();
+        let mut gone: Vec<u64> = l.baseline.iter().filter(|id| !l.live.contains_key(id)).copied().collect();
+        gone.sort();
+        for id in gone {
+            alarms.push(Alarm { kind: "constant-released-during-call", id, info: "was live before the call (owned by a script constant) and was dropped during it".to_string() });
+        }
         LedgerReport {
-            alarms: l.alarms.clone(),
+            alarms,
             live,
             created: l.created,
             cloned: l.cloned,
